@@ -20,12 +20,18 @@ from . import vloop
 
 PROCS = ['p1', 'p2']
 TAGS = ['None', 't1', 't2']
-# real identifiers per kind (one kind per history); chosen so that one string form is a prefix of another
+# real identifiers per kind (one kind per history).  int/str/uuid: chosen so that one string form is a prefix of another.
+# int0/str0: the universe of ids that python treats as FALSE - the integer 0 and the empty string (whose string form is the
+# empty sequence of symbols) - as a pid and as a tag next to a true one: a tag is absent iff it is None, a pid / tag that is
+# merely falsy is a key component like any other (specification: FileName tests k[2] = "None" and nothing else).
 IDS = {
     'int': {'p1': 1, 'p2': 11, 't1': 1, 't2': 11},
     'str': {'p1': 'a', 'p2': 'ab', 't1': 'b', 't2': 'a'},
     'uuid': {'p1': uuid.UUID(int=1), 'p2': uuid.UUID(int=17), 't1': uuid.UUID(int=1), 't2': uuid.UUID(int=3)},
+    'int0': {'p1': 0, 'p2': 10, 't1': 0, 't2': 10},
+    'str0': {'p1': '', 'p2': 'a', 't1': '', 't2': 'a'},
 }
+FALSY_KINDS = [k for k, ids in IDS.items() if any(not ids[t] for t in ('t1', 't2'))]     # kinds that have a falsy tag
 
 
 # scratch directories live on a memory file system when there is one (16 workers create and remove thousands of them)
@@ -232,8 +238,9 @@ def store_items(store):
     return list(store.items())
 
 
-def replay(kind, ops, expected, final_state):
-    """ops: [[name, pid, tag]]; expected: per op the `last` record of the successor state. -> (divergence | None)"""
+def replay(kind, ops, expected, final_state, names=None):
+    """ops: [[name, pid, tag]]; expected: per op the `last` record of the successor state; names: the specification's
+    FileNameTable (kind -> pid -> tag -> sequence of symbols) as evaluated by TLC. -> (divergence | None)"""
     w = World(kind)
     try:
         for i, (op, last) in enumerate(zip(ops, expected)):
@@ -255,10 +262,11 @@ def replay(kind, ops, expected, final_state):
                     diffs.append(['final %s %s' % (nm, k), exp[nm][k], obs[nm][k]])
         if exp['dir'] != obs['dir']:
             diffs.append(['final directory', exp['dir'], obs['dir']])
-        for nm in PROCS:
+        # the name function on the WHOLE key universe (stored or not), against the specification's FileName
+        for nm in PROCS if names is not None else ():
             for t in TAGS:
                 fn = plumpy.PicklePersister.pickle_filename(w.pid(nm), w.tag(t))
-                want = ''.join(symbols(kind, nm) + ([] if t == 'None' else ['.'] + symbols(kind, t)) + ['.', 'pickle'])
+                want = ''.join(names[kind][nm][t])
                 if fn != want:
                     diffs.append(['pickle_filename %s/%s' % (nm, t), want, fn])
         if diffs:
